@@ -151,8 +151,18 @@ def child_pairs(s_sch, v):
                 out.extend((p.get("type"), x) for x in v)
             elif p.get("elements") is not Nil:
                 els = p.get("elements")
-                if not any(e is ... for e in els) and len(els) == len(v):
-                    out.extend(zip(els, v))
+                n = len(els)
+                if not any(e is ... for e in els):
+                    if n == len(v):
+                        out.extend(zip(els, v))
+                elif n >= 2 and els[-1] is ... and els[0] is not ...:
+                    conc = els[:-1]                      # head window [a, b, ...]
+                    if len(v) >= len(conc):
+                        out.extend(zip(conc, v))
+                elif n >= 1 and els[0] is ... and els[-1] is not ...:
+                    conc = els[1:]                       # tail window [..., a, b]
+                    if len(v) >= len(conc):
+                        out.extend(zip(conc, v[len(v) - len(conc):]))
         elif kind == "AnySchema" and p.get("types") is not Nil:
             out.extend((t, v) for t in p.get("types"))
     except Exception:
